@@ -69,6 +69,10 @@ func DecodeSgpdSR(hdr BoxHeader, startPos uint64, sr bits.SliceReader) (Box, err
 		if err != nil {
 			return nil, err
 		}
+		if sgEntry.Size() != uint64(descriptionLength) {
+			return nil, fmt.Errorf("sgpd: %s entry of size %d does not match description length %d",
+				b.GroupingType, sgEntry.Size(), descriptionLength)
+		}
 		b.SampleGroupEntries = append(b.SampleGroupEntries, sgEntry)
 	}
 
